@@ -114,4 +114,15 @@ Lemma premem_shrinking_header :
   r_out (run_session hmac sv_fixed w_env (w_handshake ++ w_shrink)) = OClose err_len_bigger.
 Proof. split; [|split; [|split]]; vm_compute; try reflexivity. discriminate. Qed.
 
+(* a connect command after publish: before C20's repair the session accepted it (rewriting appName / tcUrl of a
+   session the upper layer already reads, and - F-C04-4 - queueing four replies that shared one buffer); the
+   upper layer was notified of a connect on a session that already is a publisher *)
+Lemma pinned_connect_after_publish :
+  (exists evs, handle_tcp_connect hmac sv_pinned w_env (w_handshake ++ w_pub ++ w_conn) = Some evs /\ shell_ok evs = false) /\
+  r_out (run_session hmac sv_fixed w_env (w_handshake ++ w_pub ++ w_conn)) = OClose e_unexpected_msg.
+Proof.
+  split; [|vm_compute; reflexivity].
+  eexists. split; [vm_compute; reflexivity|vm_compute; reflexivity].
+Qed.
+
 End Pinned.
